@@ -52,7 +52,7 @@ def main():
         "(marker-looking lines, tool-message-looking lines, non-ASCII) under the 3 renderers; decisions of 40 conflict "
         "scripts x 3 strategies x 16 (64) include subsets x colour")
     chk.outside += ["notebooks larger than two cells", "text outside the pools", "terminal encodings (output is a StringIO)"]
-    chk.stubs += ["nbdime.prettyprint.which -> renderer selector (real git / diff subprocesses run)",
+    chk.stubs += ["nbdime.prettyprint.which -> renderer selector (real git / diff subprocesses run; git+colorui additionally sets color.ui=always through GIT_CONFIG_* environment variables)",
                   "symbolic leaves render as the text of their model value (whitelisted concretisation)",
                   "isinstance inside nbdime modules -> sx.values.sym_isinstance"]
     chk.require_goals(["empty-diff", "nonempty-diff", "visible-entry", "decisions-rendered"])
